@@ -6,7 +6,7 @@
       frame exceeds the limits in force. *)
 From Coq Require Import ZArith List Bool Lia ZifyBool.
 From AQ Require Import lib.Base model.RangeSet model.StreamSend model.FlowSend
-  proofs.RangeSetP proofs.ListZ proofs.StreamSendP proofs.FlowSendP.
+  proofs.RangeSetP proofs.ListZ proofs.StreamSendP proofs.FlowSendP proofs.FlowSendP2.
 
 (* ================= G. buffer_is_empty and what is waiting ================= *)
 (* something is waiting: a pending range (written and never sent, or declared lost) or a pending FIN *)
@@ -250,6 +250,22 @@ Proof.
       destruct (buf_slice (t_send t) g start stop V ltac:(lia) ltac:(lia) ltac:(lia)) as (Hdata & Hlen).
       rewrite Hdata in Eg. inversion Eg; subst data. intros Hnil. rewrite Hnil, Zlen_nil in Hlen. lia. }
     split; [exact Hne|]. destruct (Hd Hne) as (_ & Hm). apply Hm. reflexivity.
+Qed.
+
+(* the hypotheses of unblocked_progress_full are satisfiable by a non-trivial state: stream 0 of the straddle history
+   (40 bytes sent and lost, 40 more written: pending [0,80), highest 40, MAX_DATA 200 with 40 used) *)
+Example unblocked_progress_example :
+  let c := frun (conn_init true) ops_straddle_pre in
+  exists t g, find_strm 0 (c_streams c) = Some t /\ reach (t_send t) g /\ t_blocked t = false /\
+    s_reset (t_send t) = None /\ has_work (t_send t) /\ max_offset c t = 200 /\
+    (forall start rstop rest, s_pending (t_send t) = (start, rstop) :: rest -> start < max_offset c t).
+Proof.
+  cbv zeta. eexists. exists (snd (srun (send_init true) ghost_init sops_straddle)).
+  split; [vm_compute; reflexivity|]. split.
+  - change (reach (fst (srun (send_init true) ghost_init sops_straddle)) (snd (srun (send_init true) ghost_init sops_straddle))).
+    apply reach_srun; [constructor|]. vm_compute. repeat split; auto.
+  - split; [reflexivity|]. split; [reflexivity|]. split; [left; vm_compute; discriminate|]. split; [vm_compute; reflexivity|].
+    intros start rstop rest H. vm_compute in H. inversion H; subst. vm_compute. reflexivity.
 Qed.
 
 (* ================= H. the repaired _parse_transport_parameters =================
@@ -597,4 +613,130 @@ Proof.
   split; [reflexivity|]. split; [apply filter_length_le|]. split.
   - intros x Hx Hg. apply (filter_length_lt _ _ x Hx). rewrite Hg. reflexivity.
   - intros n. apply ahead_app. exact Hin.
+Qed.
+
+(* ================= K. progress for a whole pass of the stream loop ================= *)
+(* everything unblocked_progress needs to know about stream s in state c *)
+Definition waiting (c : conn) (s : Z) (t : strm) (g : ghost) : Prop :=
+  find_strm s (c_streams c) = Some t /\ reach (t_send t) g /\ t_blocked t = false /\ s_reset (t_send t) = None /\
+  has_work (t_send t) /\
+  (forall start rstop rest, s_pending (t_send t) = (start, rstop) :: rest -> start < max_offset c t).
+
+Definition same_view (c c' : conn) (s : Z) (t : strm) : Prop :=
+  c_used c' = c_used c /\ c_max_data c' = c_max_data c /\
+  exists t', find_strm s (c_streams c') = Some t' /\ t_send t' = t_send t /\ t_blocked t' = t_blocked t /\ t_msdr t' = t_msdr t.
+
+Lemma waiting_transfer c c' s t g : waiting c s t g -> same_view c c' s t -> exists t', waiting c' s t' g.
+Proof.
+  intros (Hf & R & Hb & Hr & Hw & Hroom) (U & M & t' & Hf' & Es & Eb & Em). exists t'.
+  unfold waiting. rewrite Es, Eb. repeat split; try assumption.
+  intros a b r Hp. specialize (Hroom a b r Hp). unfold max_offset in *. rewrite Es, Em, U, M. exact Hroom.
+Qed.
+
+Lemma same_view_refl c s t : find_strm s (c_streams c) = Some t -> same_view c c s t.
+Proof. intros H. split; [reflexivity|]. split; [reflexivity|]. exists t. auto. Qed.
+
+Lemma same_view_trans c c1 c2 s t t1 : same_view c c1 s t -> find_strm s (c_streams c1) = Some t1 -> same_view c1 c2 s t1 -> same_view c c2 s t.
+Proof.
+  intros (U & M & t' & Hf' & Es & Eb & Em) Hf1 (U2 & M2 & t2 & Hf2 & Es2 & Eb2 & Em2).
+  assert (t' = t1) by congruence. subst t'.
+  split; [congruence|]. split; [congruence|]. exists t2. repeat split; congruence.
+Qed.
+
+(* a get_frame call that cuts no frame leaves highest_offset alone *)
+Lemma get_no_frame_highest st ms mo : (forall off d f, fst (get_frame st ms mo) <> SFrame off d f) ->
+  s_highest (snd (get_frame st ms mo)) = s_highest st.
+Proof.
+  unfold get_frame. destruct (s_reset st); [reflexivity|]. destruct (s_pending st) as [|[a b] r].
+  - destruct (s_pending_eof st); [intros H; exfalso; eapply H; reflexivity|reflexivity].
+  - cbv zeta. match goal with |- context [if ?c then (SNone, st) else _] => destruct c end; [reflexivity|].
+    intros H; exfalso; eapply H; reflexivity.
+Qed.
+
+(* the three calls the loop makes for a stream x: they keep the view of another stream s, unless a STREAM frame is cut *)
+Lemma stop_call_view c x s t : find_strm s (c_streams c) = Some t ->
+  same_view c (snd (fstep c (OGetStop x))) s t.
+Proof.
+  intros Hf. cbn [fstep]. destruct (find_strm x (c_streams c)) as [tx|] eqn:Ex; [|apply same_view_refl; exact Hf].
+  destruct (negb (t_stop tx) || t_blocked tx); [apply same_view_refl; exact Hf|]. cbn [snd].
+  split; [reflexivity|]. split; [reflexivity|]. cbn [with_streams c_streams].
+  destruct (Z.eq_dec s x) as [->|Hne].
+  - exists (set_stop false t). rewrite (find_upd_same x (set_stop false) _ t (fun _ => eq_refl) Hf). auto.
+  - exists t. rewrite find_upd_other; [auto|reflexivity|exact Hne].
+Qed.
+
+Lemma reset_call_view c x s t : find_strm s (c_streams c) = Some t -> s <> x ->
+  same_view c (snd (fstep c (OGetReset x))) s t.
+Proof.
+  intros Hf Hne. cbn [fstep]. destruct (find_strm x (c_streams c)) as [tx|] eqn:Ex; [|apply same_view_refl; exact Hf].
+  destruct (negb (s_reset_pending (t_send tx)) || t_blocked tx); [apply same_view_refl; exact Hf|]. cbn [get_reset_frame snd].
+  split; [reflexivity|]. split; [reflexivity|]. unfold upd_send, with_streams. cbn [c_streams].
+  exists t. rewrite find_upd_other; [auto|reflexivity|exact Hne].
+Qed.
+
+Lemma get_call_view c x ms s t : find_strm s (c_streams c) = Some t -> s <> x ->
+  (forall mo off d f, fst (fstep c (OGet x ms)) <> FGet mo (SFrame off d f)) ->
+  same_view c (snd (fstep c (OGet x ms))) s t.
+Proof.
+  intros Hf Hne Hno. cbn [fstep] in *. destruct (find_strm x (c_streams c)) as [tx|] eqn:Ex; [|apply same_view_refl; exact Hf].
+  destruct (s_reset_pending (t_send tx) || t_blocked tx || s_empty (t_send tx)); [apply same_view_refl; exact Hf|].
+  pose proof (get_no_frame_highest (t_send tx) ms (Some (max_offset c tx))) as Hh.
+  destruct (get_frame (t_send tx) ms (Some (max_offset c tx))) as [o s'] eqn:Eg. cbn [fst snd] in *.
+  assert (E : s_highest s' = s_highest (t_send tx)).
+  { apply Hh. intros off d f Ho. subst o. eapply Hno. reflexivity. }
+  split; [cbn [c_used]; lia|]. split; [reflexivity|]. cbn [c_streams].
+  exists t. rewrite find_upd_other; [auto|reflexivity|exact Hne].
+Qed.
+
+(* a frame for stream x in the outputs of one loop step *)
+Definition frame_in (o : list fout) : Prop := exists mo off d f, In (FGet mo (SFrame off d f)) o.
+
+Lemma loop_step_other c x ms s t : find_strm s (c_streams c) = Some t -> s <> x ->
+  frame_in (fst (loop_step c x ms)) \/ same_view c (snd (loop_step c x ms)) s t.
+Proof.
+  intros Hf Hne. unfold loop_step. cbv zeta.
+  pose proof (stop_call_view c x s t Hf) as V1. set (c1 := snd (fstep c (OGetStop x))) in *.
+  destruct V1 as (U1 & M1 & t1 & Hf1 & Es1 & Eb1 & Em1).
+  assert (V1 : same_view c c1 s t) by (split; [exact U1|split; [exact M1|exists t1; auto]]).
+  destruct (match find_strm x (c_streams c1) with Some t0 => s_reset_pending (t_send t0) && negb (t_blocked t0) | None => false end).
+  - right. cbn [snd]. apply (same_view_trans c c1 _ s t t1 V1 Hf1). apply reset_call_view; assumption.
+  - cbn [fst snd].
+    destruct (fst (fstep c1 (OGet x ms))) as [| |mo o| | | | | |] eqn:Eo;
+      try (right; apply (same_view_trans c c1 _ s t t1 V1 Hf1); apply get_call_view; [assumption|assumption|intros; rewrite Eo; discriminate]).
+    destruct o as [|off d f| |];
+      try (right; apply (same_view_trans c c1 _ s t t1 V1 Hf1); apply get_call_view; [assumption|assumption|intros; rewrite Eo; discriminate]).
+    left. exists mo, off, d, f. right. left. reflexivity.
+Qed.
+
+Lemma loop_step_self c s ms t g : waiting c s t g -> 0 < ms -> frame_in (fst (loop_step c s ms)).
+Proof.
+  intros W Hms. pose proof W as (Hf & _). unfold loop_step. cbv zeta.
+  pose proof (stop_call_view c s s t Hf) as V1. set (c1 := snd (fstep c (OGetStop s))) in *.
+  destruct (waiting_transfer c c1 s t g W V1) as (t1 & Hf1 & R1 & Hb1 & Hr1 & Hw1 & Hroom1).
+  rewrite Hf1, (reach_reset_pending _ _ R1 Hr1). cbn [andb fst].
+  destruct (unblocked_progress_full c1 s ms t1 g Hf1 R1 Hb1 Hr1 Hms Hw1 Hroom1) as (d & f & c' & E & _).
+  rewrite E. cbn [fst]. exists (max_offset c1 t1), (next_offset (t_send t1)), d, f. right. left. reflexivity.
+Qed.
+
+(* one pass of the stream loop in which every _write_stream_frame call up to and including the one for s is offered a
+   positive budget: if s is waiting (not held back, not reset, data or FIN pending below both limits, legitimate
+   sender), a STREAM frame is cut for s or for a stream visited before s *)
+Lemma loop_progress_l q : forall c budgets s t g,
+  In s q -> (length (ahead s q) < length budgets)%nat -> Forall (fun ms => 0 < ms) budgets ->
+  waiting c s t g ->
+  exists x o, In (x, o) (fst (stream_loop c q budgets)) /\ frame_in o /\ (x = s \/ In x (ahead s q)).
+Proof.
+  induction q as [|x q IH]; intros c budgets s t g Hin Hlen Hpos W; [destruct Hin|].
+  destruct budgets as [|ms b]; [cbn in Hlen; lia|]. inversion Hpos as [|? ? Hms Hpos']; subst.
+  cbn [stream_loop fst ahead]. destruct (x =? s) eqn:E.
+  - assert (x = s) by lia. subst x. exists s, (fst (loop_step c s ms)). split; [left; reflexivity|]. split; [|left; reflexivity].
+    exact (loop_step_self c s ms t g W Hms).
+  - assert (Hne : s <> x) by lia. destruct Hin as [->|Hin]; [lia|].
+    pose proof W as (Hf & _).
+    destruct (loop_step_other c x ms s t Hf Hne) as [Hfr|V].
+    + exists x, (fst (loop_step c x ms)). split; [left; reflexivity|]. split; [exact Hfr|right; left; reflexivity].
+    + destruct (waiting_transfer _ _ _ _ _ W V) as (t' & W').
+      cbn [ahead length] in Hlen. rewrite E in Hlen. cbn [length] in Hlen.
+      destruct (IH (snd (loop_step c x ms)) b s t' g Hin ltac:(lia) Hpos' W') as (y & o & Hy & Hfr & Hwho).
+      exists y, o. split; [right; exact Hy|]. split; [exact Hfr|]. destruct Hwho as [->|Hy']; [left; reflexivity|right; right; exact Hy'].
 Qed.
